@@ -5,6 +5,7 @@ package main
 
 import (
 	"fmt"
+	"math"
 	"net/url"
 	"reflect"
 	"sort"
@@ -49,7 +50,7 @@ func ruleMenu() []ruleInst {
 		"year2month=/", "date=/", "int", "ints", "ints=-", "float", "re='^a+$'", "re='^\\d$'", "unique", "json", "prefix=a", "suffix=1", "prefix=中", "file", "dir",
 		"phone|", "int|", "required|", "to=1~3|", "in=(a/b)|", "in=(PAID/REFUND)", "include=(PAI)", "prefix=P", "in=(1/2/PAID)",
 		"ints= ", "prefix=a ", "suffix= a", "suffix=. ", "include=( )", "in=(a / a)", "prefix= ",
-		"in=(1+1/100%/a%41)", "include=(+)", "include=(%4)", "prefix=+", "suffix=%", "re='^\\d\\+\\d$'"} {
+		"include=(#)", "suffix=cd", "prefix=ab#", "suffix=#f", "in=(1+1/100%/a%41)", "include=(+)", "include=(%4)", "prefix=+", "suffix=%", "re='^\\d\\+\\d$'"} {
 		add(r)
 	}
 	return out
@@ -91,12 +92,14 @@ func valueMenu() []val {
 			out = append(out, val{fmt.Sprintf("uint(%d)", i), rv(uint(i))}, val{fmt.Sprintf("uint8(%d)", i), rv(uint8(i))})
 		}
 	}
+	out = append(out, val{"float64(-0)", rv(math.Copysign(0, -1))}, val{"float32(-0)", rv(float32(math.Copysign(0, -1)))}, val{"float64(NaN)", rv(math.NaN())}, val{"float64(+Inf)", rv(math.Inf(1))})
 	out = append(out, val{"float32(0.1)", rv(float32(0.1))}, val{"float32(1.5)", rv(float32(1.5))}, val{"uint8(255)", rv(uint8(255))}, val{"int8(-128)", rv(int8(-128))})
 	out = append(out, val{`""`, rv("")})
 	enum.Strings([]string{"a", "1", "中", " ", "/", "-", "."}, 3, func(s string) { out = append(out, val{fmt.Sprintf("%q", s), rv(s)}) })
 	for _, s := range []string{"13800138000", "a@b.cn", "1.2.3.4", "::1", "2021", "2021-09", "2021/09", "2021-09-28", "2021/09/28", "2021-09-28 23:00:00", "12", "1.5", `{"a":1}`, "1,2,3", "1-2-3", "1,1",
 		"110101199003074514", "aaaa", "hello world", "a b", " a", "a ", "中文 a",
 		"1 2 3", "a b", " a", "a. ", "x a", "a ", "Mr. x", "1,2", "a /",
+		"ab#cd", "#", "a?b", "?x#", "x#y?z", "http://h/p?q#f",
 		"1+1", "+8613800138000", "100%", "a%41", "%", "+", "a+b%2Bc", "1 1", "aA", "%%", "1%2B1"} {
 		out = append(out, val{fmt.Sprintf("%q", s), rv(s)})
 	}
@@ -117,7 +120,7 @@ func strV(v reflect.Value) bool {
 // strEnc: values that can be carried only in an encoded form ('+' and '%' survive the library's whole-URL decoding
 // when they are percent-encoded; '&', '=', '?', '#' cannot be carried at all under that contract).
 func strEnc(v reflect.Value) bool {
-	return v.Kind() == reflect.String && !strings.ContainsAny(v.String(), "&=?#")
+	return v.Kind() == reflect.String && !strings.ContainsAny(v.String(), "&=")
 }
 
 func carriers() []carrierFn {
@@ -313,7 +316,7 @@ func main() {
 		Rule: "rule lists = every single rule of a 140-entry menu (size rules with bounds [0..4]^2, every format rule with arguments) + ordered pairs of a reduced menu, each rule instance tagged by a unique message; " +
 			"values = numeric window [-6..9] in 8 kinds + all strings of length<=3 over {a,1,中,space,/,-,.} + format witnesses; carriers = Var, struct tag, struct per-call rule, map[string]T, map[string]interface{}, []map, " +
 			"URL (single/first/middle/last parameter raw, per-value QueryEscape (+ for space), PathEscape, whole-URL escaped); case = (rule list, value); transitions = calls; non-trivial = non-empty violated set",
-		Assumptions: []string{"URL values containing & = ? # are excluded; values containing + or % are carried in the percent-encoded URL forms only (DESIGN §7)", "map iteration order irrelevant: one rule key per call"},
+		Assumptions: []string{"URL values containing & or = are excluded; values containing + % # ? are carried in the percent-encoded URL forms only (DESIGN §7)", "map iteration order irrelevant: one rule key per call"},
 		Run:         run,
 	})
 }
